@@ -30,7 +30,7 @@ def mc_assign(rep):
 
 
 def gen(rep, tier, suites, clauses):
-    mon = {"truth": [], "rule": []}
+    mon = {"truth": [], "rule": [], "writeback": []}
     for s in suites:
         maxn = 4 if tier == "quick" or s in ("slice",) else 5
         if s == "slice" and tier == "thorough":
@@ -41,6 +41,7 @@ def gen(rep, tier, suites, clauses):
                           ) if False else _gen_one(rep, s, cfg, clauses)
         mon["truth"] += m["truth"]
         mon["rule"] += m["rule"]
+        mon["writeback"] += m.get("writeback", [])
     return mon
 
 
